@@ -620,3 +620,29 @@ func Tiny() []*Spec {
 	}
 	return out
 }
+
+// ExprFamily enumerates operator tables: 2 binary operators (+ unary minus) under all
+// assignments of associativities to 1..3 levels (F-expr, thorough tier).
+func ExprFamily() []*Spec {
+	var out []*Spec
+	assocs := []string{"left", "right", "nonassoc"}
+	n := 0
+	for _, a1 := range assocs {
+		for _, a2 := range assocs {
+			// two levels, '+' below '*'
+			out = append(out, Expr(fmt.Sprintf("exprfam_%d", n), []PrecLine{{a1, []string{"'+'"}}, {a2, []string{"'*'"}}}, []byte{'+', '*'}, false))
+			n++
+		}
+		// one level shared by both operators
+		out = append(out, Expr(fmt.Sprintf("exprfam_%d", n), []PrecLine{{a1, []string{"'+'", "'*'"}}}, []byte{'+', '*'}, false))
+		n++
+		// unary minus above, between and below the binary levels
+		out = append(out, Expr(fmt.Sprintf("exprfam_%d", n), []PrecLine{{a1, []string{"'-'"}}, {"left", []string{"'*'"}}, {"right", []string{"UMINUS"}}}, []byte{'-', '*'}, true))
+		n++
+		out = append(out, Expr(fmt.Sprintf("exprfam_%d", n), []PrecLine{{a1, []string{"'-'"}}, {"right", []string{"UMINUS"}}, {"left", []string{"'*'"}}}, []byte{'-', '*'}, true))
+		n++
+		out = append(out, Expr(fmt.Sprintf("exprfam_%d", n), []PrecLine{{"nonassoc", []string{"UMINUS"}}, {a1, []string{"'-'"}}, {"left", []string{"'*'"}}}, []byte{'-', '*'}, true))
+		n++
+	}
+	return out
+}
